@@ -275,8 +275,14 @@ class SSHKnownHosts:
             x509_subjects, revoked_subjects = self._match(host, addr, port)
 
         if port and not (host_keys or ca_keys or x509_certs or x509_subjects):
+            port_revoked = (revoked_keys, revoked_certs, revoked_subjects)
+
             host_keys, ca_keys, revoked_keys, x509_certs, revoked_certs, \
                 x509_subjects, revoked_subjects = self._match(host, addr)
+
+            revoked_keys = list(port_revoked[0]) + list(revoked_keys)
+            revoked_certs = list(port_revoked[1]) + list(revoked_certs)
+            revoked_subjects = list(port_revoked[2]) + list(revoked_subjects)
 
         return (host_keys, ca_keys, revoked_keys, x509_certs, revoked_certs,
                 x509_subjects, revoked_subjects)
